@@ -23,14 +23,13 @@ def sh(cmd, cwd=None, timeout=1800):
 
 def main():
     seed = os.path.abspath(sys.argv[1])
+    global tiers
     tiers = [a for a in sys.argv[2:] if not a.startswith('--')] or ['quick']
     if '--no-check' in sys.argv:
         tiers = []
     meta = json.load(open(os.path.join(seed, 'meta.json')))
     prop = meta['property']
     res = {'seed': seed, 'property': prop}
-    if subprocess.run('git -C /repo status --porcelain --untracked-files=no', shell=True, capture_output=True, text=True).stdout.strip():
-        print('REPO-DIRTY'); sys.exit(9)
     wt = tempfile.mkdtemp(prefix='seedeval-', dir='/tmp')
     os.rmdir(wt)
     rc, out = sh(f'git -C /repo worktree add -q --detach {wt} HEAD')
@@ -74,12 +73,30 @@ def main():
             rc, out = sh(cmd, cwd=wt)
             res['demo_with_change'] = 'fail' if rc != 0 else 'PASSES'
             res['demo_with_tail'] = out[-300:] if rc != 0 else ''
+        if '--isolated' in sys.argv and res.get('applies'):
+            # run the check(s) against this worktree (patch applied, demonstration files removed) from a private copy of
+            # the verification tree: /repo is not touched, so evaluations can run side by side
+            sh('git clean -fdq', cwd=wt)
+            vd = os.environ.get('VERIF_DIR', '/verif')
+            job = tempfile.mkdtemp(prefix='vjob-', dir='/dev/shm' if os.path.isdir('/dev/shm') else '/tmp')
+            try:
+                sh(f'rsync -a --exclude .git --exclude .build --exclude replays --exclude seeded {vd}/ {job}/')
+                for tier in tiers:
+                    rc, out = sh(f'VERIF_DIR={job} VERIF_REPO={wt} {job}/check {prop} {tier}', cwd=job, timeout=7200)
+                    record(res, tier, rc, out)
+                    if rc == 1:
+                        break
+            finally:
+                shutil.rmtree(job, ignore_errors=True)
+            tiers = []
     finally:
         sh(f'git -C /repo worktree remove --force {wt}')
         shutil.rmtree(wt, ignore_errors=True)
-    res['confirmed'] = res.get('demo_without_change') == 'pass' and res.get('applies') and res.get('suite_with_change') == 'pass' and res.get('demo_with_change') == 'fail'
-    # run the check(s)
-    if res.get('applies'):
+    res['confirmed'] = bool(res.get('demo_without_change') == 'pass' and res.get('applies') and res.get('suite_with_change') == 'pass' and res.get('demo_with_change') == 'fail')
+    # the prescribed way: apply to /repo, run the check, undo
+    if res.get('applies') and tiers:
+        if subprocess.run('git -C /repo status --porcelain --untracked-files=no', shell=True, capture_output=True, text=True).stdout.strip():
+            print('REPO-DIRTY'); sys.exit(9)
         for tier in tiers:
             rc, out = sh(f'git -C /repo apply {seed}/patch.diff')
             assert rc == 0, out
@@ -88,12 +105,17 @@ def main():
                 rc, out = sh(f'{vd}/check {prop} {tier}', cwd=vd, timeout=7200)
             finally:
                 sh('git -C /repo checkout -- . && git -C /repo clean -fdq')
-            viol = [l for l in out.splitlines() if l.startswith('VIOLATION')]
-            res[f'check_{tier}'] = {'exit': rc, 'violations': len(viol), 'first': [l[:200] for l in out.splitlines() if l.startswith('  signature=')][:3],
-                                    'summary': out.strip().splitlines()[-1][:240] if out.strip() else ''}
+            record(res, tier, rc, out)
             if rc == 1:
                 break
-    print(json.dumps(res, ensure_ascii=False))
+    res.pop('demo_without_tail', None) if res.get('demo_without_change') == 'pass' else None
+    print(json.dumps(res, ensure_ascii=False, indent=1))
+
+
+def record(res, tier, rc, out):
+    viol = [l for l in out.splitlines() if l.startswith('VIOLATION')]
+    res[f'check_{tier}'] = {'exit': rc, 'violations': len(viol), 'first': [l[:240] for l in out.splitlines() if l.startswith('  signature=')][:3],
+                            'summary': out.strip().splitlines()[-1][:240] if out.strip() else ''}
 
 
 if __name__ == '__main__':
